@@ -316,22 +316,32 @@ namespace GoblVerif.WrittenAgainst
 def verifyConds : List String :=
   ["len(e.Signatures) == 0", "err := e.verifySignature(s, keys...); err != nil", "len(ve) > 0"]
 def verifyRanges : List String := ["e.Signatures"]
+/- `e.Head == nil` and `schema.CheckNullElements(h)` (a signed header whose stamps or links hold a
+   JSON null) guard states the model cannot be in: its envelope always has a header and a payload is a
+   well-formed `Header`.  They answer "header mismatch" / "invalid signature payload" where the code
+   dereferenced nil before (/repo ce09676, f6bf443). -/
 def verifySignatureConds : List String :=
-  ["len(keys) == 0", "err := sig.UnsafePayload(h); err != nil", "!e.Head.Contains(h)",
-   "err := sig.VerifyPayload(k, h); err != nil", "e.Head.Contains(h)"]
+  ["e.Head == nil", "len(keys) == 0", "err := sig.UnsafePayload(h); err != nil",
+   "err := schema.CheckNullElements(h); err != nil", "!e.Head.Contains(h)",
+   "err := sig.VerifyPayload(k, h); err != nil", "err := schema.CheckNullElements(h); err != nil",
+   "e.Head.Contains(h)"]
 def verifySignatureReturns : List String :=
-  ["errors.New(\"invalid signature payload\")", "errors.New(\"header mismatch\")", "nil", "nil",
+  ["errors.New(\"header mismatch\")", "errors.New(\"invalid signature payload\")",
+   "errors.New(\"invalid signature payload\")", "errors.New(\"header mismatch\")", "nil",
+   "errors.New(\"invalid signature payload\")", "nil",
    "errors.New(\"header mismatch\")", "errors.New(\"no key match found\")"]
 def verifySignatureRanges : List String := ["keys"]
 def cliVerifyConds : List String :=
   ["err != nil", "err := jsonyaml.Unmarshal(body, env); err != nil", "err := env.Validate(); err != nil",
-   "key == nil", "!env.Signed()", "err := sig.VerifyPayload(key, h); err != nil", "!env.Head.Contains(h)"]
+   "key == nil", "!env.Signed()", "err := sig.VerifyPayload(key, h); err != nil",
+   "err := schema.CheckNullElements(h); err != nil", "!env.Head.Contains(h)"]
 def cliVerifyRanges : List String := ["env.Signatures"]
 def cliVerifyReturns : List String :=
   ["wrapError(StatusBadRequest, err)", "wrapError(StatusBadRequest, err)",
    "wrapError(StatusUnprocessableEntity, err)", "wrapErrorf(StatusBadRequest, \"public key required\")",
    "wrapErrorf(http.StatusUnprocessableEntity, \"envelope is not signed\")",
    "wrapError(http.StatusUnprocessableEntity, err)",
+   "wrapErrorf(http.StatusUnprocessableEntity, \"invalid signature payload\")",
    "wrapErrorf(http.StatusUnprocessableEntity, \"header mismatch\")", "nil"]
 def sigVerifyConds : List String := ["s == nil || s.jws == nil || key == nil", "err != nil"]
 def sigUnsafeConds : List String := ["s == nil || s.jws == nil"]
